@@ -22,8 +22,11 @@ func (m Mutation) String() string { return m.Path + " " + m.Kind }
 // Apply returns the mutated message.
 func (m Mutation) Apply() []byte { return applyMutation(m.body, m.Path, m.Kind) }
 
-var boundaryUints = []uint64{0, 1, 23, 24, 255, 256, 65535, 65536, 4294967295, 4294967296, 1<<63 - 1, 1 << 63, 1<<64 - 1}
-var boundaryNints = []uint64{0, 23, 24, 255, 65535, 4294967295, 1<<63 - 1, 1<<64 - 1} // value = -1-arg
+// Boundary values plus the identifiers the FDO/COSE registries assign (hash
+// and HMAC types 5, 6, -16, -43; signature algorithms -7, -35, -37, -257):
+// relabelling one valid identifier as another is the realistic substitution.
+var boundaryUints = []uint64{0, 1, 5, 6, 23, 24, 255, 256, 65535, 65536, 4294967295, 4294967296, 1<<63 - 1, 1 << 63, 1<<64 - 1}
+var boundaryNints = []uint64{0, 6, 15, 23, 24, 34, 36, 42, 255, 256, 65535, 4294967295, 1<<63 - 1, 1<<64 - 1} // value = -1-arg
 
 func kindsFor(n *CNode, hasArrayParent bool) []string {
 	var k []string
